@@ -36,26 +36,32 @@ template <int DIM, int ORDER> struct PPWorld {
       ds.push_back(mk(3, ncbig2, -1.0, 1.0, 5, true, 0)); // d: even more coefficients
       // e / e2: the data of `a` in a frame 1e9 away, differing from each other only by 2^-10 in the velocity coefficients: their relative
       // Frobenius distance is ~1e-12, so an 'approximately equal' test would treat the update as a no-op (seeded change C11-m5)
+      // mixed data sets reached by SELF-ALIASED updates (index 9: a's grid with a2's pieces, index 10: a2's grid with a's pieces): the object's own
+      // getBreakpoints() / getCoefficients() handed back to its update() together with new values for the other argument (seeded change C11-m9)
       { DS e = ds[0]; for (int sg = 0; sg < 3; ++sg) for (int k = 0; k < DIM; ++k) e.C(sg * e.nc, k) += 1073741824.0; ds.push_back(e); DS e2 = e; for (int sg = 0; sg < 3; ++sg) for (int k = 0; k < DIM; ++k) e2.C(sg * e2.nc + 1, k) += 0.0009765625; ds.push_back(e2); }
+      { DS m1 = ds[0]; m1.C = ds[1].C; ds.push_back(m1); DS m2 = ds[1]; m2.C = ds[0].C; ds.push_back(m2); }
     }
     return ds;
   }
   std::unique_ptr<PP> X, Y; int mx = -1, my = -1;
   PPWorld() : X(new PP()), Y(new PP()) {}
-  int nops() const { return 22; }
-  bool enabled(int) const { return true; }
+  int nops() const { return 24; }
+  bool enabled(int op) const { return op < 22 || mx == 0 || mx == 1; }
+  static constexpr double TPROBE = 0.3125;   // a fixed ABSOLUTE probe time: it lies in another segment of every data set's grid
   std::string opname(int op) const {
     static const char *n[] = {"X.update(a)", "X.update(a2 same shape)", "X.update(b more segments)", "X.update(c more coeffs)", "X.update(bad: 1 breakpoint)", "X.update(bad: row count)",
                               "X.evaluate(k=0)", "X.evaluate(k=1)", "X.evaluate(k=top)", "X.evaluate(k=beyond)", "X.evaluate(hinted,k=1)", "X.derivative(1).evaluate", "Y = X", "Y = PP(X) copy-ctor", "X = X",
-                              "swap roles X<->Y", "Y.evaluate(k=1)", "Y.update(b)", "X.derivative(2) kept as Y", "X.update(d even more coeffs)", "X.update(e = a in a frame 1e9 away)", "X.update(e2 = e with velocities + 2^-10)"};
+                              "swap roles X<->Y", "Y.evaluate(k=1)", "Y.update(b)", "X.derivative(2) kept as Y", "X.update(d even more coeffs)", "X.update(e = a in a frame 1e9 away)", "X.update(e2 = e with velocities + 2^-10)", "X.update(X.getBreakpoints(), pieces of the other same-shape data set)", "X.update(grid of the other same-shape data set, X.getCoefficients())"};
     return n[op];
   }
   void apply(int op) {
     const auto &ds = datasets();
     double tp = X->getStartTime() + 0.3 * X->getDuration();
     if (op <= 5) { X->update(ds[op].b, ds[op].C, ds[op].nc); mx = ds[op].valid ? op : -1; }
-    else if (op == 6) (void)X->evaluate(tp, 0);
-    else if (op == 7) (void)X->evaluate(tp, 1);
+    else if (op == 22) { const int o = 1 - mx; X->update(X->getBreakpoints(), ds[o].C, ds[o].nc); mx = mx == 0 ? 9 : 10; }
+    else if (op == 23) { const int o = 1 - mx; X->update(ds[o].b, X->getCoefficients(), ds[mx].nc); mx = mx == 0 ? 10 : 9; }
+    else if (op == 6) (void)X->evaluate(TPROBE, 0);   // fixed absolute time (a lookup remembered per time must not survive a re-gridding: C11-m10)
+    else if (op == 7) (void)X->evaluate(TPROBE, 1);
     else if (op == 8) (void)X->evaluate(tp, std::max(0, X->getNumCoeffs() - 1));
     else if (op == 9) (void)X->evaluate(tp, X->getNumCoeffs());
     else if (op == 10) { int h = 1; (void)X->evaluate(tp, &h, 1); }
@@ -77,6 +83,8 @@ template <int DIM, int ORDER> struct PPWorld {
     PP fresh = m >= 100 ? PP(ds[m - 100].b, ds[m - 100].C, ds[m - 100].nc).derivative(2) : PP(ds[m].b, ds[m].C, ds[m].nc);
     if (!o.isInitialized() || o.getNumSegments() != fresh.getNumSegments() || o.getNumCoeffs() != fresh.getNumCoeffs() || o.getBreakpoints() != fresh.getBreakpoints() || !mat_bits_equal(o.getCoefficients(), fresh.getCoefficients()))
       return std::string(name) + " does not hold its latest data (shape/breakpoints/coefficients)";
+    // first, at the fixed absolute probe time the history's own evaluate operations use
+    for (int k = 0; k <= 1; ++k) { Vec a = o.evaluate(TPROBE, k), w = fresh.evaluate(TPROBE, k); dg.raw(a.data(), sizeof(double) * DIM); if (!bits_equal(a.data(), w.data(), DIM)) return fmt("%s.evaluate(t=%.6g,k=%d) = %.17g right after the history, a fresh object with the same data gives %.17g (stale lookup / cache)", name, TPROBE, k, a(0), w(0)); }
     const std::vector<double> &b = fresh.getBreakpoints();
     for (int k = 0; k <= fresh.getNumCoeffs() + 1; ++k) for (size_t i = 0; i < b.size(); ++i) for (double f : {0.0, 0.4}) {
       double t = i + 1 < b.size() ? b[i] + f * (b[i + 1] - b[i]) : b[i] + f;
